@@ -83,6 +83,48 @@ theorem rtp_semantic_stable (bs : Bytes) (p : Packet) (hp : parsePacket bs = .ok
         · cases hp; exact w
     · cases hp; exact w
 
+/-- **rtp_marshal_parse** (the inverse law in the other direction, for canonical wire encodings): if the
+parser accepts `bs` and — in case the P bit is set — the padding count is non-zero and every padding byte
+carries the count (the way this stack writes padding), then serialising the parsed packet reproduces
+`bs` byte for byte. Everything else in the encoding (version, CSRC list, extension block of any profile,
+payload) is already canonical because the format has no other freedom. -/
+theorem rtp_marshal_parse (bs : Bytes) (p : Packet) (hp : parsePacket bs = .ok p)
+    (hc : ∀ h body, parseHeader bs = .ok (h, true, body) →
+      p.padLen ≠ 0 ∧ body.drop (body.length - p.padLen.toNat) = List.replicate p.padLen.toNat p.padLen) :
+    marshalPacket p = .ok bs := by
+  unfold parsePacket at hp
+  split at hp
+  · cases hp
+  · next h padding body hh =>
+    have w := parseHeader_wf hh
+    have hb := parseHeader_inv hh
+    cases padding with
+    | false =>
+      simp only [Bool.false_eq_true, if_false, Except.ok.injEq] at hp
+      subst hp
+      simp only [marshalPacket, validate_ok_of_wf w]
+      rw [hb]; simp
+    | true =>
+      simp only [if_true] at hp
+      split at hp
+      · cases hp
+      · next pl hlast =>
+        split at hp
+        · cases hp
+        · next hle =>
+          simp only [Except.ok.injEq] at hp
+          subst hp
+          obtain ⟨hne, hrep⟩ := hc h body hh
+          simp only at hne hrep
+          have hne' : (pl != 0) = true := by simp [hne]
+          simp only [marshalPacket, validate_ok_of_wf w, hne']
+          rw [hb, ← hrep, List.append_assoc, List.take_append_drop]
+
+example : parsePacket [0xA0, 0x60, 0, 1, 0, 0, 0, 2, 0, 0, 0, 3, 0x55, 2, 2] =
+    .ok ⟨Header.new 96 1 2 3, [0x55], 2⟩ ∧
+    marshalPacket ⟨Header.new 96 1 2 3, [0x55], 2⟩ = .ok [0xA0, 0x60, 0, 1, 0, 0, 0, 2, 0, 0, 0, 3, 0x55, 2, 2] := by
+  constructor <;> rfl
+
 /-- **rtp_marshal_rejects_invalid**: the two structural ranges the wire cannot carry at all are errors,
 never silent truncation: more than 15 CSRCs, or an extension payload that is not 32-bit aligned. -/
 theorem rtp_marshal_rejects_invalid (p : Packet)
@@ -358,6 +400,13 @@ theorem rtcp_parse_marshal_remb (s : UInt32) (br : Nat) (ss : List UInt32) (hn :
     (hb : br < 2 ^ 64) (hrep : rembCanon br = br) :
     ∃ bs, marshalCompound [.remb s br ss] = .ok bs ∧ parseCompound bs = .ok [.remb s br ss] :=
   rtcp_compound_roundtrip _ (by intro p hp; simp only [List.mem_singleton] at hp; subst hp; exact ⟨hn, hb, hrep⟩)
+
+/-- **remb_wire_values_representable**: every bitrate the REMB wire format can express — an 18-bit
+mantissa times a power of two, below 2^64 — satisfies the representability hypothesis of
+`rtcp_parse_marshal_remb` (so e.g. every bitrate below 262 144 bps and every such value scaled by 2^e). -/
+theorem remb_wire_values_representable (m e : Nat) (hm : m < 2 ^ 18) (hv : m * 2 ^ e < 2 ^ 64) :
+    rembCanon (m * 2 ^ e) = m * 2 ^ e :=
+  rembCanon_wire m e (by omega) hv
 
 /-- **TWCC**: 24-bit reference time and an opaque status/delta payload of ANY length (an unaligned
 payload is carried with RTCP padding since the `fix:` commit; before it the payload came back
